@@ -420,6 +420,22 @@ Model/SrcPreludeG.v; the text generated for every other unit is untouched):
   the translated constructors __init__:str with their literal defaults, `x = IPRange(<text>, <text>)` = the translated
   IPRange.__init__:str, x being a refined IPRange operand afterwards (`x.cidrs()` = the translated method); a local that holds an
   IPRange on one path and an IPNetwork on another is never joined (the continuation is translated once per path).
+* netaddr/core.py -> pysrc_core_gen.v (C12: num_bits).  The name is defined twice, `try: <probe>; def num_bits / except AttributeError: def
+  num_bits` at module level (shape checked by the wrapper of Module.function): entries `num_bits:bit_length` (the try body's
+  definition, the one in use) and `num_bits:fallback` (the handler's); `x.bit_length()` = py_num_bits (SrcPreludeCmp = Order.num_bits),
+  the truth value of an int in `while int_val:` = `!= 0`, fuel of that loop from FUEL (int_val + 1).
+* netaddr/contrib/subnet_splitter.py -> pysrc_splitterg_gen.v (C20: SubnetSplitter.__init__ on an IPNetwork argument), read by Fn itself.
+* netaddr/ip/sets.py -> pysrc_sets_g_gen.v (C07: IPSet.__iter__, __hash__, __reduce__, __repr__; read by FnG, the SRCA hooks are not active):
+  `sorted(self._cidrs)` = py_sorted_nets of the keys (SrcPreludeSets = Sets.sorted); `_itertools.chain(*l)` over IPNetwork objects = the
+  iterator as the list of what it yields, py_flat_addrs l; a method whose body is one `raise E` is `Raise E : outcome unit`;
+  `return self.__class__, (), <state>` (__reduce__) answers the state component (class and empty argument tuple are constants);
+  `'<text>%r<text>' % <list of text>` = Python's repr of a list of str, py_repr_strlist (Unsupported for an item that needs escaping);
+  `[str(c) for c in <IPNetwork objects>]` = py_map_og of the translated IPNetwork.__str__.
+* netaddr/ip/glob.py -> pysrc_globg_gen.v (C17: IPGlob.__repr__), read by FnGB, a subclass of FnB that adds `self.__class__.__name__`.
+* netaddr/compat.py: SRCG_COMPAT_EXPECT lists, for every compat name that some reader accepted on the strength of its import alone
+  (_int_type _str_type _dict_keys _dict_items _iter_next _range _bytes_join _importlib_resources), the source text its first binding
+  (the Python 3 branch) must be equal to as an AST; a name whose binding differs is removed from the import table of every parsed
+  module (wrapper of Module.__init__), so exactly the functions that use it stop translating.
 """
 import ast
 import os
@@ -8958,3 +8974,19 @@ def _srcg_module_init(self, fn):
 
 
 Module.__init__ = _srcg_module_init
+
+
+# ---- SRCG: IPGlob.__repr__ (netaddr/ip/glob.py), read by a subclass of FnB (the reader of the glob unit) that adds one reading:
+# `self.__class__.__name__` = the name of the receiver class (a subclass would print its own name: out of scope)
+class FnGB(FnB):
+    def rhs(self, node, env):
+        if dotted(node) == "self.__class__.__name__" and self.recv and "self" not in env and isinstance(node.ctx, ast.Load):
+            return ("str", srcc_strlit(self.recv, node))
+        return super().rhs(node, env)
+
+
+FnGB.__name__ = "FnB"           # (Translator.get recognises the readers of the SRCB units by this name: PURE_EXTRA)
+SRCG_GLOB_UNIT = ("netaddr/ip/glob.py", "pysrc_globg_gen.v", "", " Base.PyStr Model.SrcPreludeStr Model.SrcPreludeGlob", [("IPGlob", "__repr__", {})])
+UNITS = UNITS + [SRCG_GLOB_UNIT]
+FILES = FILES + (SRCG_GLOB_UNIT[1],)
+FN_CLASS[SRCG_GLOB_UNIT[1]] = FnGB
